@@ -217,6 +217,9 @@ func targetBits(n int, e1, e2 bool) uint64 {
 	return t
 }
 
+// failDepth: commit failures are injected into the runs started from states reached by < failDepth process starts.
+var failDepth = 99
+
 func exploreRunner(r *ev.Run, maxDepth, workers int) {
 	acts := allActs()
 	start := aState{img: memory.New(), trace: "empty db"}
@@ -484,7 +487,7 @@ func checkRunnerRun(r *ev.Run, st aState, m0 meta, e1, e2 bool, T uint64, pendin
 		add(img, Ck, st.depth+1, fmt.Sprintf("%s [crash after commit %d/%d]", tr, k, n))
 	}
 	// ---- every commit of the run fails once: Run must report an error and the image must be the previous one
-	for k := 1; k <= n; k++ {
+	for k := 1; k <= n && st.depth < failDepth; k++ {
 		rf := doRun(st.img, nMig, e1, e2, script, k)
 		r.Add("evaluations", 1)
 		r.Add("a_failed_commit_runs", 1)
